@@ -62,7 +62,9 @@ def ops(prop):
                 ("width_aware_splitlines(80)", lambda f: list(f.width_aware_splitlines(80)))],
         "C13": [("views", lambda f: (f.s, len(f), f.width, str(f), repr(f)))],
         "C14": [("copy_with_new_atts(bold)", lambda f: f.copy_with_new_atts(bold=True)), ("new_with_atts_removed(fg)", lambda f: f.new_with_atts_removed("fg")),
-                ("shared_atts", lambda f: dict(f.shared_atts)), ("fmtstr(f, bg='blue')", lambda f: fmtstr(f, bg="blue")), ("fmtstr(f, 'underline')", lambda f: fmtstr(f, "underline"))],
+                ("shared_atts", lambda f: dict(f.shared_atts)), ("fmtstr(f, bg='blue')", lambda f: fmtstr(f, bg="blue")), ("fmtstr(f, 'underline')", lambda f: fmtstr(f, "underline")),
+                ("fmtstr(f, 'bold', 'RED', 'on_Blue')", lambda f: fmtstr(f, "bold", "RED", "on_Blue")), ("fmtstr(f, 'blink', 'invert')", lambda f: fmtstr(f, "blink", "invert")),
+                ("fmtfuncs.underline(f)", lambda f: __import__("curtsies.fmtfuncs").fmtfuncs.underline(f)), ("fmtstr(f, style='bold')", lambda f: fmtstr(f, style="bold"))],
         "C15": [("upper", lambda f: f.upper()), ("ljust", lambda f: f.ljust(len(f) + 3)), ("center", lambda f: f.center(len(f) + 4, "*")), ("replace", lambda f: f.replace("a", "bb")),
                 ("split", lambda f: f.split()), ("splitlines", lambda f: f.splitlines()), ("strip", lambda f: f.strip()), ("title", lambda f: f.title())],
         "C16": [("linesplit(f,7)", lambda f: linesplit(f, 7)), ("linesplit(f,2)", lambda f: linesplit(f, 2)), ("linesplit(str,20)", lambda f: linesplit(f.s, 20))],
@@ -399,6 +401,10 @@ def failing_calls():
         ("copy_with_new_atts(fg='nocolor') rendered", lambda f: str(f.copy_with_new_atts(fg="nocolor"))), ("f[0] = 'x'", lambda f: f.__setitem__(0, "x")), ("f.ljust('a')", lambda f: f.ljust("a")),
         ("width of a control character", lambda f: (f + "\x01").width), ("from_str of an unfinished sequence", lambda f: FmtStr.from_str(str(f) + "\x1b[")),
         ("f.center()", lambda f: f.center()), ("f.split(3)", lambda f: f.split(3)), ("f.split('(', regex=True)", lambda f: f.split("(", regex=True)),
+        # rejected spellings of names that are valid in another spelling (a name table filled on the way to the rejection)
+        ("fmtstr(f, 'Underline')", lambda f: fmtstr(f, "Underline")), ("fmtstr(f, 'BOLD')", lambda f: fmtstr(f, "BOLD")), ("fmtstr(f, 'on_nocolor')", lambda f: fmtstr(f, "on_nocolor")),
+        ("fmtstr(f, 'red', 'blue')", lambda f: fmtstr(f, "red", "blue")), ("fmtstr(f, 'Blink', 'on_Blue', 'RED')", lambda f: fmtstr(f, "Blink", "on_Blue", "RED")),
+        ("fmtstr(f, style='Bold')", lambda f: fmtstr(f, style="Bold")), ("fmtstr(f, fg='Red')", lambda f: str(fmtstr(f, fg="Red"))), ("fmtstr(f, 'invert', Invert=True)", lambda f: fmtstr(f, "invert", Invert=True)),
     ]
 
 
